@@ -116,6 +116,9 @@ def atom(key: str) -> Formula:
     return ("atom", key)
 
 
+EXHAUSTED: Formula = ("atom", "<the work list is exhausted>")
+
+
 def _assignments(names: list[str]):
     for values in itertools.product([False, True], repeat=len(names)):
         yield dict(zip(names, values))
@@ -391,6 +394,8 @@ class Loop:
         if not self.exit_guards:
             return False
         for g in self.exit_guards:
+            if g == EXHAUSTED:
+                continue
             work = [a for a in atoms_of(g) if a.startswith("bool(<")]
             if not any(implies(g, f_not(atom(a))) for a in work):
                 return False
@@ -467,6 +472,26 @@ class Trace:
     def result(self) -> Term:
         return phi([(f_and(pc), t) for pc, t in self.returns])
 
+    def opaque_calls(self, known: Callable[[Event], bool] | None = None) -> list[Event]:
+        """Calls the executor could not follow although they run code of the repository (functions it did not enter, callables it
+        could not identify): whatever such a call does is invisible in the trace, so the *absence* of an event proves nothing."""
+        out = []
+        for e in self.events:
+            if e.kind != "call" or (known is not None and known(e)):
+                continue
+            tag = e.func[0]
+            if tag == "fn":
+                out.append(e)
+            elif tag in ("attr", "idx", "mcall", "param", "unk", "elem", "loopvar", "call", "phi", "yields", "lambda", "partial"):
+                out.append(e)
+            elif tag == "method" and e.name in self.sx.repo_method_names and e.name not in _PURE_METHODS and e.name not in MUTATORS and e.name not in POPPERS:
+                out.append(e)  # a method that some class of the repository defines, on a receiver the executor could not resolve
+            elif tag == "lib" and e.func[1] in ("functools.reduce", "itertools.starmap", "itertools.accumulate") and e.args and e.args[0][0] in ("attr", "fn", "lambda", "partial", "param"):
+                out.append(e)  # library functions that call back into the repository
+            elif tag == "builtin" and e.name in ("map", "filter", "sorted", "min", "max") and any(a[0] in ("attr", "fn", "lambda", "partial") for a in [*e.args, *[v for _k, v in e.kwargs]]):
+                out.append(e)
+        return out
+
     def atom_term(self, key: str) -> Term | None:
         return self.sx.atoms.get(key)
 
@@ -497,6 +522,7 @@ class SymX:
         self._ids = itertools.count(1)
         self.entry: FuncInfo | None = None
         self.notes: list[str] = []  # constructs that were approximated (diagnostics)
+        self.repo_method_names = {n for c in repo.classes.values() for n in c.methods} | {f.name for f in repo.funcs.values() if f.cls is None and f.outer is None}
         self.box_site: dict[int, int] = {}  # box id -> id of the AST node that created it
         self.box_loops: dict[int, tuple] = {}  # box id -> ids of the loops that were running when it was created
         self.box_init: dict[int, Term] = {}  # box id -> contents at creation
@@ -567,7 +593,12 @@ class SymX:
 
     @staticmethod
     def _snap(t: Term, st: State) -> Term:
-        """A container as it is *now*: its display is replaced by the contents accumulated by the mutations executed so far."""
+        """A container as it is *now*: its display is replaced by the contents accumulated by the mutations executed so far.
+        A copy made by `itertools.tee(s)` is `s` without the elements consumed from it by `next(...)` so far."""
+        if t[0] == "idx" and t[1][0] == "call" and t[1][1] == ("lib", "itertools.tee") and t[1][2] and t[2][0] == "const":
+            adv = st.heap.get(("#adv", t), 0)
+            src = t[1][2][0]
+            return src if adv == 0 else ("slice", src, const(adv), NONE_T, NONE_T)
         if t[0] == "box":
             cur = st.heap.get(("#box", t[1]))
             if cur is not None and cur != t[3]:
@@ -655,6 +686,11 @@ class SymX:
             op, l, r = t[1], t[2], t[3]
             if op in ("==", "!=") and l[0] == "const" and r[0] == "const":
                 return ("const", (l[1] == r[1]) == (op == "=="))
+            if op in ("==", "!=", "is", "is not"):
+                # the class of a freshly constructed object is known
+                a_, b_ = (l, r) if l[0] == "cls" else (r, l)
+                if a_[0] == "cls" and b_[0] == "call" and b_[1] == ("builtin", "type") and len(b_[2]) == 1 and b_[2][0][0] == "new":
+                    return ("const", (a_[1] == b_[2][0][1]) == (op in ("==", "is")))
             if op in ("is", "is not") and (l[0] == "const" or r[0] == "const"):
                 a, b = (l, r) if r[0] == "const" else (r, l)
                 if a[0] == "const":
@@ -814,9 +850,15 @@ class SymX:
         enclosing = [a for a in ancestors(s) if isinstance(a, (ast.For, ast.AsyncFor, ast.While))]
         if isinstance(s, ast.Break):
             enclosing = enclosing[:1]
+        # `try: x = todo.pop() / next(it)  except IndexError / StopIteration: break` leaves the loop when the work is exhausted
+        handler = next((a for a in ancestors(s) if isinstance(a, ast.ExceptHandler)), None)
+        exhausted = handler is not None and handler.type is not None and any(
+            isinstance(n, ast.Name) and n.id in ("IndexError", "KeyError", "StopIteration", "LookupError", "Empty") or isinstance(n, ast.Attribute) and n.attr in ("Empty",)
+            for n in ast.walk(handler.type)
+        )
         for l in self.loops:
             if any(l.node is a for a in enclosing):
-                l.exit_guards.append(f_and(st.pc))
+                l.exit_guards.append(EXHAUSTED if exhausted else f_and(st.pc))
 
     def _if(self, s: ast.If, st: State) -> State:
         c = self.truth(self.eval(s.test, st))
@@ -1267,8 +1309,22 @@ class SymX:
                 return const(-x[1])
             return ("unop", {ast.USub: "-", ast.UAdd: "+", ast.Invert: "~"}.get(type(e.op), "?"), x)
         if isinstance(e, ast.BoolOp):
-            items = [self.eval(v, st) for v in e.values]
             op = "and" if isinstance(e.op, ast.And) else "or"
+            # short circuit: a later operand is only evaluated when the earlier ones did not decide
+            items = []
+            saved_pc = st.pc
+            for v in e.values:
+                x = self.eval(v, st)
+                items.append(x)
+                f = self.truth(x)
+                g = f if op == "and" else f_not(f)
+                if g == FALSE:
+                    break
+                if g != TRUE:
+                    st.pc = st.pc + (g,)
+            st.pc = saved_pc
+            if len(items) < len(e.values):
+                items = items  # the remaining operands are never evaluated
             # value semantics of `a or b` / `a and b` with decided operands
             out: list[Term] = []
             for x in items[:-1]:
@@ -1295,11 +1351,13 @@ class SymX:
                 return self.eval(e.body, st)
             if c == FALSE or not satisfiable(f_and([ctx, c])):
                 return self.eval(e.orelse, st)
-            a_st = st.copy()
-            a_st.pc = a_st.pc + (c,)
-            b_st = st.copy()
-            b_st.pc = b_st.pc + (f_not(c),)
-            return phi([(c, self.eval(e.body, a_st)), (f_not(c), self.eval(e.orelse, b_st))])
+            saved_pc = st.pc
+            st.pc = saved_pc + (c,)
+            a_val = self.eval(e.body, st)
+            st.pc = saved_pc + (f_not(c),)
+            b_val = self.eval(e.orelse, st)
+            st.pc = saved_pc
+            return phi([(c, a_val), (f_not(c), b_val)])
         if isinstance(e, ast.Tuple):
             return ("tuple", tuple(self.eval(x, st) for x in e.elts))
         if isinstance(e, ast.List):
@@ -1499,9 +1557,33 @@ class SymX:
     # ------------------------------------------------------------------ calls
     def _call_operands(self, call: ast.Call, st: State):
         recv = self.eval(call.func.value, st) if isinstance(call.func, ast.Attribute) else None
-        args = tuple(self.eval(a, st) for a in call.args)
+        args: list[Term] = []
+        for a in call.args:
+            v = self.eval(a, st)
+            if v[0] == "star":
+                items = self._display_items(v[1]) if v[1][0] in ("box", "tuple", "list") else None
+                if items is None and v[1][0] == "new":
+                    items = self._tuple_fields(v[1])
+                if items is not None:
+                    args += items  # `f(*(a, b))` is `f(a, b)`
+                    continue
+            args.append(v)
         kwargs = tuple((k.arg or "**", self.eval(k.value, st)) for k in call.keywords)
-        return recv, args, kwargs
+        return recv, tuple(args), kwargs
+
+    def _tuple_fields(self, obj: Term) -> "list[Term] | None":
+        """Fields of a NamedTuple / dataclass instance in declaration order (for unpacking)."""
+        ci = self.repo.classes.get(obj[1])
+        if ci is None or self.repo.lookup_method(ci, "__init__") is not None:
+            return None
+        if not any(b.endswith("NamedTuple") for b in ci.bases):
+            return None
+        fields = [a for c in reversed(self.repo.mro(ci)) for a in c.ann_attrs]
+        vals = list(obj[2]) + [None] * (len(fields) - len(obj[2]))
+        for k, v in obj[3]:
+            if k in fields:
+                vals[fields.index(k)] = v
+        return None if any(v is None for v in vals) else vals
 
     def _resolve(self, call: ast.Call, st: State) -> FuncInfo | None:
         try:
@@ -1691,7 +1773,16 @@ class SymX:
             if callee is not None:
                 return self._call_repo(callee, call, fterm[1], args, kwargs, st)
         if fterm[0] == "phi":
-            return phi([(g, self._apply(a, args, kwargs, st, call)) for g, a in fterm[1]])
+            outs_ = []
+            saved_pc = st.pc
+            for g, a in fterm[1]:
+                if is_const(a, None):
+                    continue
+                st.pc = saved_pc + ((g,) if g != TRUE else ())
+                outs_.append((g, self._apply(a, args, kwargs, st, call)))
+                st.alive = True
+            st.pc = saved_pc
+            return phi(outs_) if outs_ else ("unk", "call of nothing", self.fresh())
         if fterm[0] == "attr":
             # a bound method taken as a value: `add = names.append`, `visit = self._visit`
             recv, name = fterm[1], fterm[2]
@@ -1754,7 +1845,7 @@ class SymX:
         obj: Term = ("new", cls_fq, args, kwargs, self.fresh())
         self._record("call", ("cls", cls_fq), None, cls_fq.rsplit(".", 1)[-1], args, kwargs, st, call, obj)
         enter = self.enter_ctor(ci) if ci is not None and self.enter_ctor is not None else (
-            ci is not None and self.entry is not None and ci.module is self.entry.module and not ci.bases and ci is not self.entry.cls and not ci.is_dataclass
+            ci is not None and self.entry is not None and not ci.bases and ci is not self.entry.cls and not ci.is_dataclass and (ci.module is self.entry.module or ci.name.startswith("_"))
         )
         if ci is not None and enter:
             init = self.repo.lookup_method(ci, "__init__")
@@ -1786,6 +1877,15 @@ class SymX:
             if name == "frozenset":
                 return ("call", ("builtin", name), args, kwargs)
             return self._box(name, init if not args else ("call", ("builtin", name), args, ()), call)
+        if name in ("all", "any") and len(args) == 1 and not kwargs:
+            items = self._elementwise(args[0], st, call)
+            if items is not None:
+                return items[0] if len(items) == 1 else ("boolop", "and" if name == "all" else "or", tuple(items)) if items else const(name == "all")
+        if name == "next" and args and call is not None and call.args and isinstance(call.args[0], ast.Name):
+            raw = st.env.get(call.args[0].id)
+            if raw is not None and raw[0] == "idx" and raw[1][0] == "call" and raw[1][1] == ("lib", "itertools.tee"):
+                st.heap[("#adv", raw)] = st.heap.get(("#adv", raw), 0) + 1
+                return ("unk", "consumed element", self.fresh())
         if name == "isinstance" and len(args) == 2:
             return ("call", ("builtin", name), args, kwargs)
         if name == "cast" and len(args) == 2:
@@ -1797,9 +1897,27 @@ class SymX:
             if f[0] == "const":
                 return const(f[1])
         res = ("call", ("builtin", name), args, kwargs)
-        if name not in ("len", "isinstance", "str", "bool", "tuple", "zip", "enumerate", "range", "sorted", "reversed", "map", "filter", "iter", "any", "all", "min", "max", "int", "repr", "hasattr", "getattr", "type", "id", "sum"):
+        quiet = ("len", "isinstance", "str", "bool", "tuple", "zip", "enumerate", "range", "sorted", "reversed", "map", "filter", "iter", "any", "all", "min", "max", "int", "repr", "hasattr", "getattr", "type", "id", "sum")
+        takes_callable = name in ("map", "filter", "sorted", "min", "max") and any(a[0] in ("attr", "fn", "lambda", "partial") for a in [*args, *[v for _k, v in kwargs]])
+        if name not in quiet or takes_callable:
             self._record("call", ("builtin", name), None, name, args, kwargs, st, call, res)
         return res
+
+    def _elementwise(self, it: Term, st: State, call: ast.Call | None) -> "list[Term] | None":
+        """The elements of `map(f, display)`, of a display, or of a comprehension over a display (at most six)."""
+        src = it[3] if it[0] == "box" and self._never_mutated(it) else it
+        if src[0] in ("tuple", "list") and len(src[1]) <= 6 and not any(x[0] == "star" for x in src[1]):
+            return list(src[1])
+        if src[0] == "call" and src[1] == ("builtin", "map") and len(src[2]) == 2:
+            items = self._display_items(src[2][1])
+            if items is not None and len(items) <= 6:
+                return [self._apply(src[2][0], (x,), (), st, call) for x in items]
+        if src[0] == "comp" and src[1] in ("list", "gen", "set") and len(src[3]) == 1 and not src[3][0][2]:
+            tgt, source, _c = src[3][0]
+            items = self._display_items(source)
+            if items is not None and len(items) <= 6 and tgt[0] == "elem":
+                return [rewrite(src[2], lambda x, e=e: e if x == tgt else None) for e in items]
+        return None
 
     def _lib_call(self, fterm: Term, args: tuple, kwargs: tuple, st: State, call: ast.Call | None) -> Term:
         dotted = fterm[1]
@@ -2020,4 +2138,6 @@ def default_policy(entry: FuncInfo | None, caller: FuncInfo, callee: FuncInfo) -
         return True
     if entry is not None and callee.module is entry.module and callee.cls is not None and callee.cls is not entry.cls and not callee.cls.bases:
         return True  # helper classes written next to the entry point (not part of a class hierarchy with virtual calls)
+    if callee.cls is not None and callee.cls.name.startswith("_") and all(b.endswith(("NamedTuple", "object")) for b in callee.cls.bases):
+        return True  # private helper classes
     return callee.is_staticmethod or callee.is_classmethod
